@@ -388,16 +388,19 @@ class SpecEval:
             if self.head is None:
                 raise SpecError('atHead() outside a step clause')
             h, env = self.head
-            env = dict(env)
-            env.update(self.bound)
-            return self.sub(heap=h, env=env).ev(args[0])
+            # heap of the iteration head; loop-carried variables have their head value, variables assigned later in
+            # the body (which did not exist at the head) keep their current value
+            env0 = dict(self.env)
+            env0.update(env)
+            env0.update(self.bound)
+            return self.sub(heap=h, env=env0).ev(args[0])
         if name == 'len':
             v = self.ev(args[0])
             uk, e = w.prog.under(v.ty)
             if e['kind'] == 'slice':
                 return SV(S.len(v.t), 'int')
             if e['kind'] == 'map':
-                return SV(self.heap.get(('msize', v.ty))[v.t], 'int')
+                return SV(z3.If(v.t == 0, z3.IntVal(0), self.heap.get(('msize', v.ty))[v.t]), 'int')     # len(nil map) == 0
             if e['kind'] == 'basic':
                 return SV(w.strlen(v.t), 'int')
             raise SpecError('len of ' + v.ty)
@@ -429,7 +432,14 @@ class SpecEval:
         if name == 'has':
             m = self.ev(args[0])
             kx = self.ev(args[1])
-            return SV(self.heap.get(('mdom', m.ty))[m.t][kx.t], 'bool')
+            dom_ = self.heap.get(('mdom', m.ty))
+            seen_ = self.V.__dict__.setdefault('_nilmap_facts', set())
+            if dom_.get_id() not in seen_ and z3.is_const(dom_):
+                # the nil map has no key (model fact, true of Go maps)
+                seen_.add(dom_.get_id())
+                kq_ = z3.Const('nilmap_k', kx.t.sort())
+                self.V.global_hyps.append(z3.ForAll([kq_], z3.Not(dom_[0][kq_]), patterns=[dom_[0][kq_]]))
+            return SV(dom_[m.t][kx.t], 'bool')
         if name == 'isnil':
             v = self.ev(args[0])
             if v.t.sort() == S:
